@@ -8,11 +8,21 @@ is/hail/expr/ir/Parser.scala and is/hail/utils/StringEscapeUtils.scala; nothing 
       the installed JDK for every char); decided once over ASCII names and once over all names.
   R2  escapes.  The escapers are turned into UNIT TABLES (code-point range -> emitted text): escape_parsable from the platform's
       unicode_escape codec (tabulated for every code point) followed by the extracted `.replace`, escape_str/escape_id by symbolic
-      evaluation of the per-character loop over code-point ranges.  Per unit kind, delimiter+unit+delimiter must be in (a) the
-      engine lexer's quotedLiteral language (escapeChars extracted from Parser.scala), (b) for escape_parsable also the Python
-      grammar's `escaped_identifier` (which must be prefix-free so that PEG matching is exact).
-  R3  unescape_parsable is the mirror image of escape_parsable (inverse steps in reverse order, delimiter stripped by the
-      visitor); every struct field name / reference genome name printed by tstruct / tlocus goes through escape_parsable.
+      evaluation of the per-character loop over code-point ranges; a hand-written per-character encoder (re.sub with a replacement
+      function, ''.join(<expr> for ch in s), str.translate with a literal table, helpers inlined) by abstract evaluation on the symbolic
+      character (engines/c31decode.char_encoder).  Every escaper is a DECISION LIST: early exits in front of the table (a fast path
+      `if <test on s [and the mode flag]>: return s`) get the exact regular language of the strings that take them, per value of
+      `backticked`, and are checked as "emitted as it is" exits of their own.  Per exit and unit kind, delimiter+unit+delimiter must
+      be in (a) the engine lexer's quotedLiteral language (escapeChars extracted from Parser.scala), (b) for escape_parsable also the
+      Python grammar's `escaped_identifier` (which must be prefix-free so that PEG matching is exact).
+  R3  unescape_parsable inverts escape_parsable, unit kind by unit kind: the decoder is read as a chain of symbolic transducers
+      (.replace / regex .sub with a template, lambda or function replacement / the unicode_escape codec, modelled natively) and every
+      unit's text, followed by an arbitrary continuation, must come back as exactly the character, the scan stopping exactly at the
+      unit's end (ordered leftmost-first matching and the replacement function are evaluated on symbolic texts - constants, the
+      character, its hex digits, the following characters as sets - with explicit case splits; a violation carries a code point and
+      a continuation that realise the failing case).  Early exits of the decoder (`if <test>: return s`) may only take texts without
+      escapes (language emptiness).  The visitor hands the decoder exactly the text between the delimiters; every struct field name /
+      reference genome name printed by tstruct / tlocus goes through escape_parsable.
   R4  printed forms parse back: the type grammar TEXT is read by our own PEG interpreter; for every HailType class the `__str__`
       template is instantiated with sample children / field names and must parse in full through the rule whose visitor constructs
       that very class; visitor tuple-unpacking arity == number of sequence members of the rule; every alternative has a visitor.
@@ -50,6 +60,7 @@ import ast
 import os
 import re
 import subprocess
+import sys
 import tempfile
 import unicodedata
 from typing import Any, Dict, List, Optional, Sequence, Tuple
@@ -67,14 +78,17 @@ META = dict(
     text='Lexical agreement between the Python printers/escapers, the Python type grammar and the engine lexer is decided exactly on '
          'regular languages over all Unicode code points (inclusions by DFA product with shortest witnesses, per escape-unit kind); '
          'the print/parse round trip is decided per type class by interpreting the grammar text with our own PEG interpreter on '
-         'instantiated print templates (structural induction over the type constructors, sampled field names); hl.dtype is decided by abstract '
+         'instantiated print templates (structural induction over the type constructors, sampled field names); the decoder unescape_parsable is '
+         'decided unit kind by unit kind as a chain of symbolic transducers (ordered regex matching and replacement functions evaluated on symbolic '
+         'texts with case splits); hl.dtype is decided by abstract '
          'data flow (its result is the parse of its own argument; memo keys classified by a closed table of injective / grammar-neutral / lossy '
          'shapes); the visitor is checked as a data path (every value-carrying member reaches the constructor unaltered, in reading order) and '
          'printer templates are matched symbolically against the token-reading scripts of the engine parser arms. '
          'Sampling of field names and children in R4 keeps the level at other.',
     note='Trusted: CPython ast/re._parser, the unicode_escape codec and str predicates of the running interpreter, '
          'Character.isJavaIdentifierStart/Part of the installed JDK (fallback: unicodedata categories), the definition of '
-         'scala-parser-combinators JavaTokenParsers.ident, engines/relang.py, peglite.py, scalalite.py, strpred.py; the closed tables of injective / lossy '
+         'scala-parser-combinators JavaTokenParsers.ident, engines/relang.py, peglite.py, scalalite.py, strpred.py, c31decode.py (native model of the '
+         'unicode_escape decoder from its documentation, re.sub scanning semantics); the closed tables of injective / lossy '
          'string operations and of order-preserving visitor operations. Assumes regex '
          'terminals of the grammar follow stdlib `re` semantics.',
     technique='static analysis: regular-language inclusion over a Unicode partition, symbolic evaluation of escapers into unit tables, '
@@ -122,21 +136,49 @@ def java_identifier_tables(ctx: Ctx) -> Tuple[R.CharSet, R.CharSet, str]:
     if _java_cache is not None:
         return _java_cache
     out = None
-    tmp = tempfile.mkdtemp(prefix='verif_c31_java_')
+    # the table depends on the installed JDK only: it is kept in the system temp directory under a key made of the identity of the `java`
+    # binary (resolved path, size, mtime) and of the tabulating program, so that the JVM is started once per JDK, not once per run
+    cache = None
     try:
-        path = os.path.join(tmp, 'IdTab.java')
-        with open(path, 'w') as fh:
-            fh.write(_JAVA_SRC)
+        import hashlib
+        import shutil
+        exe = shutil.which('java')
+        if exe:
+            real = os.path.realpath(exe)
+            st_ = os.stat(real)
+            key = hashlib.sha256(f'{real}|{st_.st_size}|{st_.st_mtime_ns}|{_JAVA_SRC}'.encode()).hexdigest()[:24]
+            cache = os.path.join(tempfile.gettempdir(), f'verif_c31_javatab_{key}.txt')
+            if os.path.exists(cache):
+                with open(cache) as fh:
+                    txt = fh.read()
+                if txt.count('\n') >= 3 and txt.endswith('\n#complete\n'):
+                    out = txt
+    except OSError:
+        cache = None
+    if out is None:
+        tmp = tempfile.mkdtemp(prefix='verif_c31_java_')
         try:
-            p = subprocess.run(['java', '-XX:TieredStopAtLevel=1', path], capture_output=True, text=True, timeout=60, cwd=tmp)
-            if p.returncode == 0 and p.stdout.count('\n') >= 3:
-                out = p.stdout
-        except (OSError, subprocess.SubprocessError):
-            out = None
-    finally:
-        for f in os.listdir(tmp):
-            os.unlink(os.path.join(tmp, f))
-        os.rmdir(tmp)
+            path = os.path.join(tmp, 'IdTab.java')
+            with open(path, 'w') as fh:
+                fh.write(_JAVA_SRC)
+            try:
+                p = subprocess.run(['java', '-XX:TieredStopAtLevel=1', path], capture_output=True, text=True, timeout=120, cwd=tmp)
+                if p.returncode == 0 and p.stdout.count('\n') >= 3:
+                    out = p.stdout
+            except (OSError, subprocess.SubprocessError):
+                out = None
+        finally:
+            for f in os.listdir(tmp):
+                os.unlink(os.path.join(tmp, f))
+            os.rmdir(tmp)
+        if out is not None and cache is not None:
+            try:
+                fd, tmpname = tempfile.mkstemp(prefix='verif_c31_javatab_', suffix='.part', dir=tempfile.gettempdir())
+                with os.fdopen(fd, 'w') as fh:
+                    fh.write(out + ('' if out.endswith('\n') else '\n') + '#complete\n')
+                os.replace(tmpname, cache)
+            except OSError:
+                pass
     if out is not None:
         lines = out.split('\n')
 
@@ -288,31 +330,68 @@ def unicode_escape_units() -> List[Unit]:
     data = R._all_chars().encode('unicode_escape')
     units: List[Unit] = []
     cp = 0
-    pat = re.compile(rb'(?P<x>(?:\\x[0-9a-f]{2})+)|(?P<u>(?:\\u[0-9a-f]{4})+)|(?P<U>(?:\\U[0-9a-f]{8})+)|(?P<c>\\[^xuU])|(?P<raw>[^\\]+)', re.S)
     pos = 0
-    for m in pat.finditer(data):
-        if m.start() != pos:
-            raise AnalysisError('unicode_escape tabulation: unexpected output shape')
-        pos = m.end()
-        kind = m.lastgroup
-        text = m.group().decode('ascii')
-        if kind in ('x', 'u', 'U'):
-            w = {'x': 2, 'u': 4, 'U': 8}[kind]
-            n = len(text) // (2 + w)
-            first, last = text[:2 + w], text[-(2 + w):]
-            if first != f'\\{kind}{cp:0{w}x}' or last != f'\\{kind}{cp + n - 1:0{w}x}':
-                raise AnalysisError('unicode_escape tabulation: escapes are not the code point numerals in order')
-            units.append(Unit(cp, cp + n - 1, [('lit', '\\' + kind), ('hex', w, False)]))
-            cp += n
-        elif kind == 'c':
-            units.append(Unit(cp, cp, [('lit', text)]))
-            cp += 1
-        else:
-            n = len(text)
-            if text != ''.join(map(chr, range(cp, cp + n))):
+    total = R.MAXCP + 1
+
+    def numeral_run(kind: str, w: int, cp0: int, pos0: int) -> int:
+        """The number of consecutive code points from cp0 whose output at pos0 is \\<kind> + the w-digit lower-case numeral; EVERY numeral
+        is compared, column by column (the k-th digits of a chunk of numerals against the k-th bytes of the output, strided slices),
+        galloping over chunks."""
+        from array import array
+        size = 2 + w
+        code = {2: 'B', 4: 'H', 8: 'I'}[w]
+        done, step = 0, 256
+        limit = min(total - cp0, (16 ** w) - cp0)
+
+        def chunk_ok(first: int, n: int, at: int) -> bool:
+            piece = data[at: at + size * n]
+            if len(piece) != size * n or piece[0::size] != b'\\' * n or piece[1::size] != kind.encode('ascii') * n:
+                return False
+            nums = array(code, range(first, first + n))
+            if nums.itemsize * 2 != w:
+                raise AnalysisError('unicode_escape tabulation: unexpected array item size')
+            if sys.byteorder == 'little':
+                nums.byteswap()
+            hx = nums.tobytes().hex().encode('ascii')
+            return all(piece[2 + k::size] == hx[k::w] for k in range(w))
+
+        while done < limit:
+            n = min(step, limit - done)
+            if chunk_ok(cp0 + done, n, pos0 + size * done):
+                done += n
+                step *= 4
+                continue
+            if n == 1:
+                break
+            step = max(1, n // 8)
+        return done
+
+    while cp < total and pos < len(data):
+        if data[pos] != 0x5C:
+            n = 0
+            while cp + n < 0x80 and pos + n < len(data) and data[pos + n] == cp + n and data[pos + n] != 0x5C:
+                n += 1
+            if n == 0:
                 raise AnalysisError('unicode_escape tabulation: raw run is not the identity')
             units.append(Unit(cp, cp + n - 1, [('self',)]))
             cp += n
+            pos += n
+            continue
+        intro = chr(data[pos + 1]) if pos + 1 < len(data) else ''
+        if intro in ('x', 'u', 'U'):
+            w = {'x': 2, 'u': 4, 'U': 8}[intro]
+            n = numeral_run(intro, w, cp, pos)
+            if n == 0:
+                raise AnalysisError('unicode_escape tabulation: escapes are not the code point numerals in order')
+            units.append(Unit(cp, cp + n - 1, [('lit', '\\' + intro), ('hex', w, False)]))
+            cp += n
+            pos += n * (2 + w)
+            continue
+        if not intro or data[pos + 1] >= 0x80:
+            raise AnalysisError('unicode_escape tabulation: unexpected output shape')
+        units.append(Unit(cp, cp, [('lit', '\\' + intro)]))
+        cp += 1
+        pos += 2
     if pos != len(data) or cp != R.MAXCP + 1:
         raise AnalysisError(f'unicode_escape tabulation covered {cp} code points')
     _codec_cache = units
@@ -593,6 +672,40 @@ def _delimited(ctx: Ctx, m: pf.Module, fn: pf.FuncDef, e: ast.AST) -> Tuple[str,
     raise AnalysisError(f'{m.rel}::{fn.name}: escaped form `{pf.nsrc(e)[:70]}` is not <delimiter> + f(s) + <delimiter>')
 
 
+def handwritten_encoder(m: pf.Module, fn: pf.FuncDef, inner: ast.AST, param: str, consts: Optional[Dict[str, Any]] = None) -> List[Unit]:
+    """Unit table of a hand-written per-character encoder `<core>(s)[.replace(c, t)]*` (core: re.sub with a replacement function /
+    ''.join(<expr> for ch in s) / s.translate(<literal table>)), by abstract evaluation on the symbolic character (engines/c31decode)."""
+    where = f'{m.rel}::{fn.name}'
+    post: List[tuple] = []
+    cur = pf.expand_locals(fn, inner)
+    while isinstance(cur, ast.Call) and isinstance(cur.func, ast.Attribute) and cur.func.attr == 'replace' and len(cur.args) == 2 and not cur.keywords:
+        post.append((sp.const_string(m, fn, cur.args[0]), sp.const_string(m, fn, cur.args[1])))
+        cur = cur.func.value
+    codec = [(u.lo, u.hi, u.parts) for u in unicode_escape_units()]
+    leaves = D.char_encoder(m, fn, cur, param, codec, consts)
+    units: List[Unit] = []
+    for cs, parts in leaves:
+        for lo, hi in cs.ranges:
+            units.append(Unit(lo, hi, list(parts)))
+    units.sort(key=lambda u: u.lo)
+    merged: List[Unit] = []
+    for u in units:
+        if merged and merged[-1].hi + 1 == u.lo and merged[-1].parts == u.parts and any(p[0] != 'lit' for p in u.parts):
+            merged[-1].hi = u.hi
+        else:
+            merged.append(u)
+    pos = 0
+    for u in merged:
+        if u.lo != pos:
+            raise AnalysisError(f'{where}: the per-character table does not cover U+{pos:04X}')
+        pos = u.hi + 1
+    if pos != R.MAXCP + 1:
+        raise AnalysisError(f'{where}: the per-character table does not cover U+{pos:04X}')
+    for a, b in reversed(post):
+        merged = apply_replace(merged, a, b, where)
+    return merged
+
+
 # ---- escape_str by symbolic evaluation ---------------------------------------------------
 
 
@@ -613,6 +726,30 @@ class EscapeStr:
             'def upper_hex(n, num_digits=None):\n    if num_digits is None:\n        return "{0:X}".format(n)\n    else:\n'
             '        return "{0:0{1}X}".format(n, num_digits)').body[0]), f'{m.rel}::upper_hex: body changed; the hex model does not apply')
         loops = [s for s in fn.body if isinstance(s, ast.For)]
+        self.mode = 'loop'
+        self.core: Optional[ast.AST] = None
+        self.pre: List[ast.stmt] = []   # the decision list in front of the loop (early exits), in order
+        for n in pf.walk_shallow(fn):
+            if isinstance(n, ast.Name) and isinstance(n.ctx, (ast.Store, ast.Del)) and n.id in params:
+                raise AnalysisError(f'{m.rel}::escape_str: the parameter {n.id} is rebound')
+        if not loops and fn.body and isinstance(fn.body[-1], ast.Return) and fn.body[-1].value is not None:
+            # no character loop: `return <per-character expression over s>` (re.sub with a replacement function, ''.join(... for ch in s),
+            # str.translate), decided by engines/c31decode.char_encoder
+            self.mode = 'expr'
+            for st in fn.body[:-1]:
+                if isinstance(st, ast.Expr) and isinstance(st.value, ast.Constant):
+                    continue
+                if isinstance(st, ast.If):
+                    self.pre.append(st)
+                    continue
+                if isinstance(st, ast.FunctionDef):
+                    continue
+                ctx.need(isinstance(st, ast.Assign) and len(st.targets) == 1 and isinstance(st.targets[0], ast.Name)
+                         and pf.single_def(fn, st.targets[0].id) is st.value,  # type: ignore[union-attr]
+                         f'{m.rel}::escape_str: unrecognised statement `{pf.nsrc(st)[:60]}`')
+            self.loop = fn.body[-1]  # type: ignore[assignment]
+            self.core = fn.body[-1].value
+            return
         ctx.need(len(loops) == 1 and isinstance(loops[0].target, ast.Name) and pf.nsrc(loops[0].iter) == 's' and not loops[0].orelse,
                  f'{m.rel}::escape_str: expected one `for ch in s` loop')
         self.loop = loops[0]
@@ -622,10 +759,6 @@ class EscapeStr:
         post = fn.body[fn.body.index(self.loop) + 1:]
         self.buf = None
         self.dicts: Dict[str, Dict[str, str]] = {}
-        self.pre: List[ast.stmt] = []   # the decision list in front of the loop (early exits), in order
-        for n in pf.walk_shallow(fn):
-            if isinstance(n, ast.Name) and isinstance(n.ctx, (ast.Store, ast.Del)) and n.id in params:
-                raise AnalysisError(f'{m.rel}::escape_str: the parameter {n.id} is rebound')
         for st in pre:
             if isinstance(st, ast.Expr) and isinstance(st.value, ast.Constant):
                 continue
@@ -668,6 +801,8 @@ class EscapeStr:
                 self.bounds |= {ord(k), ord(k) + 1}
 
     def units(self, backticked: bool) -> List[Unit]:
+        if self.mode == 'expr':
+            return handwritten_encoder(self.m, self.fn, self.core, 's', {'backticked': backticked})  # type: ignore[arg-type]
         bl = sorted(b for b in self.bounds if b <= R.MAXCP + 1)
         out: List[Unit] = []
         for i in range(len(bl) - 1):
@@ -3209,12 +3344,15 @@ def run(ctx: Ctx) -> None:
                        'are matched symbolically against the arm scripts extracted from IRParser.type_expr. No repository code is run.')
     ctx.rule('R1', 'names emitted bare are simple_identifier of the type grammar and JavaTokenParsers.ident of the engine lexer '
                    ' (ASCII names and all names)', 5)
-    ctx.rule('R2', 'every escape unit the Python side can emit between delimiters is accepted by the engine lexer quotedLiteral / by the '
-                   'grammar escaped_identifier (prefix-free)', 50)
-    ctx.rule('R3', 'unescape_parsable mirrors escape_parsable; struct field and reference genome names are printed through escape_parsable', 9)
+    # minimum counts of R2 / R5 are per unit KIND; they leave room for an encoder that merges kinds (e.g. one numeric form instead of three)
+    ctx.rule('R2', 'every escape unit the Python side can emit between delimiters - on every exit of the escapers, fast paths included - is accepted by '
+                   'the engine lexer quotedLiteral / by the grammar escaped_identifier (prefix-free)', 40)
+    ctx.rule('R3', 'unescape_parsable gives back the character from the text escape_parsable prints for it, for every unit kind and whatever follows '
+                   '(decoder read as symbolic transducers); its early exits take no text with an escape; the visitor hands it the text between the '
+                   'delimiters; struct field and reference genome names are printed through escape_parsable', 17)
     ctx.rule('R4', 'every HailType __str__ form parses back through the grammar rule whose visitor builds that class; visitor arity; every '
                    'alternative of `type` has a visitor; the same for the `_pretty` builders read as templates', 61)
-    ctx.rule('R5', 'unescapeString maps every accepted escape unit back to the same UTF-16 code units', 35)
+    ctx.rule('R5', 'unescapeString maps every accepted escape unit back to the same UTF-16 code units', 28)
     ctx.rule('R6', 'the keyword of every _parsable_string form has an arm in IRParser.type_expr that consumes the punctuation printed', 18)
     ctx.rule('R7', 'what hl.dtype returns is the parse of ITS OWN argument: every return is visit(parse(arg)) or a memo entry whose key is an injective '
                    '(parse-preserving) function of the argument - decided from a closed table of key shapes and from the grammar - and that is only written '
@@ -3321,7 +3459,17 @@ def _run_lexical(ctx: Ctx, state: Dict[str, Any]) -> None:
             b_.transform, b_.units = 'identity', list(identity_table)
             pipelines[id(b_)] = []
             continue
-        ops_b = _pipeline(ctx, mj, esc.fn, b_.inner, esc.param)  # type: ignore[arg-type]
+        try:
+            ops_b = _pipeline(ctx, mj, esc.fn, b_.inner, esc.param)  # type: ignore[arg-type]
+        except AnalysisError as first_:
+            # not a chain of codec steps: a hand-written per-character encoder?
+            try:
+                b_.units = handwritten_encoder(mj, esc.fn, b_.inner, esc.param)  # type: ignore[arg-type]
+            except AnalysisError as second_:
+                raise AnalysisError(f'{first_} | {second_}')
+            b_.transform = 'hand-written per-character encoder'
+            pipelines[id(b_)] = []
+            continue
         ctx.need(ops_b[:1] == [('encode', 'unicodeescape')], f'{F_JAVA}::escape_parsable: the first step is not .encode(\'unicode_escape\') ({ops_b})')
         tab = unicode_escape_units()
         for op in ops_b[1:]:
@@ -3334,7 +3482,6 @@ def _run_lexical(ctx: Ctx, state: Dict[str, Any]) -> None:
         b_.transform, b_.units = f'pipeline {ops_b}', tab
         pipelines[id(b_)] = ops_b
     esc_primary = finish(esc)
-    ops = pipelines[id(esc_primary)]
     units_p = esc_primary.units
     ctx.unit('code_points_tabulated', R.MAXCP + 1)
 
